@@ -20,7 +20,7 @@ type c12 struct{}
 func (c12) ID() string    { return "C12" }
 func (c12) Level() string { return "exploration" }
 func (c12) Rule() string {
-	return "10 path-bearing attribute kinds (build context, additional context, env_file, label_file, bind source in short and long syntax, secret file, config file, develop watch path, bind device of a local volume) x 13 path shapes (./x, x/y, ../x, ., /abs, ~/x, ~, C:\\x, \\\\srv\\share, https://, git@, docker-image://, ssh://) x 6 origins (main, override, include depth 1, include depth 2, extended base in another directory, extended base used from an included file) x 3 working-directory shapes, with resolution on (and off for main/override); expected value from the anchoring reference (Appendix A.5); plus the corpus documents with `./p` placed in every non-path string position (nothing may be anchored), and idempotence (render, reload, compare). distinct = distinct (attribute, shape, origin) outcomes"
+	return "10 path-bearing attribute kinds (build context, additional context, env_file, label_file, bind source in short and long syntax, secret file, config file, develop watch path, bind device of a local volume) x 13 path shapes (./x, x/y, ../x, ., /abs, ~/x, ~, C:\\x, \\\\srv\\share, https://, git@, docker-image://, ssh://) x 9 origins (main, override, include depth 1, include depth 2, extended base in another directory, extended base used from an included file, extended base / included file in a sibling directory whose name starts with the project directory's name) x 3 working-directory shapes, with resolution on (and off for main/override); expected value from the anchoring reference (Appendix A.5); plus the corpus documents with `./p` placed in every non-path string position (nothing may be anchored), and idempotence (render, reload, compare). distinct = distinct (attribute, shape, origin) outcomes"
 }
 func (c12) Assumptions() []string {
 	return []string{
@@ -90,7 +90,7 @@ var c12nonPath = []string{"image", "command", "entrypoint", "working_dir", "user
 func (c12) Run(c *core.Ctx) {
 	home, _ := os.UserHomeDir()
 	attrs := c12attrs()
-	origins := []string{"main", "override", "include1", "include2", "extends-otherdir", "extends-in-include", "extends-shared"}
+	origins := []string{"main", "override", "include1", "include2", "extends-otherdir", "extends-in-include", "extends-shared", "extends-prefix-sibling", "include-prefix-sibling"}
 	wds := []string{"proj", "proj dir", "nested/deep/proj"}
 	for _, a := range attrs {
 		for _, sh := range c12shapes {
@@ -218,6 +218,21 @@ func c12case(id string, a c12attr, sh c12shape, origin, wd string, resolve bool,
 		files[wd+"/sub/inc.yaml"] = "services:\n  s:\n    extends: {file: ../../lib/base.yaml, service: s}\n"
 		files["lib/base.yaml"] = svcDoc
 		originDir = "lib"
+	case "extends-prefix-sibling":
+		// the other directory is a sibling whose name starts with the project directory's name
+		if top != "" || strings.Contains(wd, "/") {
+			return core.Outcome{Class: "na", Trivial: true}
+		}
+		files[wd+"/compose.yaml"] = "services:\n  s:\n    extends: {file: \"../" + wd + "-base/base.yaml\", service: s}\n"
+		files[wd+"-base/base.yaml"] = svcDoc
+		originDir = wd + "-base"
+	case "include-prefix-sibling":
+		if strings.Contains(wd, "/") {
+			return core.Outcome{Class: "na", Trivial: true}
+		}
+		files[wd+"/compose.yaml"] = "include:\n  - \"../" + wd + "2/inc.yaml\"\nservices:\n  other: {image: o}\n"
+		files[wd+"2/inc.yaml"] = svcDoc
+		originDir = wd + "2"
 	case "extends-shared":
 		// the same base file is extended by the main project and by an included project (other project directory)
 		if top != "" || strings.Contains(wd, "/") {
